@@ -526,7 +526,7 @@ theorem dispatch_requires_not_ignored (db : Db) (ig : IgnoreDb) (di : Bool) (now
 theorem ignore_flag_ignored (db : Db) (ig : IgnoreDb) (di : Bool) (now : Int) (h : Str) (u : User)
     (hl : db.lookup now h = .found u) (hflag : u.ignore = true) :
     checkIgnored db ig di now h = .ok true := by
-  unfold checkIgnored
+  unfold checkIgnored ignoredGlobal
   rw [hl]
   simp only
   have : u.checkCapability trustedS = .ok false := by
@@ -540,9 +540,70 @@ theorem ignore_flag_ignored (db : Db) (ig : IgnoreDb) (di : Bool) (now : Int) (h
 theorem ignores_db_ignored (db : Db) (ig : IgnoreDb) (di : Bool) (now : Int) (h : Str)
     (hl : db.lookup now h = .missing) (hm : ig.check now h = true) :
     checkIgnored db ig di now h = .ok true := by
-  unfold checkIgnored
+  unfold checkIgnored ignoredGlobal
   rw [hl]
   cases di <;> simp [hm]
+
+/-- a caller ignored globally or by the channel the message was sent to never reaches the
+dispatcher: `PluginMixin.__call__` does not even call `Owner.doPrivmsg` -/
+theorem channel_ignored_silent (db : Db) (ig : IgnoreDb) (di : Bool) (now : Int) (h : Str)
+    (recipient : Option Str) (chan : Str → ChanIgn)
+    (hh : isUserHostmask h = true)
+    (hi : checkIgnoredIn db ig di now h recipient chan = .ok true) :
+    received db ig di now h recipient chan = .silent := by
+  have hne : h.isEmpty = false := by
+    cases h with
+    | nil => simp [isUserHostmask, userHostBody] at hh
+    | cons c cs => rfl
+  simp [received, pluginSees, hh, hne, hi]
+
+/-- a command is dispatched only if both tests answered "not ignored" -/
+theorem received_dispatch_requires (db : Db) (ig : IgnoreDb) (di : Bool) (now : Int) (h : Str)
+    (recipient : Option Str) (chan : Str → ChanIgn)
+    (hh : isUserHostmask h = true)
+    (hd : received db ig di now h recipient chan = .dispatch) :
+    checkIgnoredIn db ig di now h recipient chan = .ok false ∧ checkIgnored db ig di now h = .ok false := by
+  have hne : h.isEmpty = false := by
+    cases h with
+    | nil => simp [isUserHostmask, userHostBody] at hh
+    | cons c cs => rfl
+  unfold received pluginSees at hd
+  simp only [hh, hne, Bool.not_true, Bool.or_self, Bool.false_eq_true, ↓reduceIte] at hd
+  cases hc : checkIgnoredIn db ig di now h recipient chan with
+  | error e => simp [hc] at hd
+  | ok b =>
+    cases b with
+    | true => simp [hc] at hd
+    | false =>
+      simp only [hc, Bool.not_false] at hd
+      exact ⟨rfl, dispatch_requires_not_ignored db ig di now h hd⟩
+
+/-- a live channel ban or channel ignore matching the caller silences them in that channel -/
+theorem channel_ban_ignored (db : Db) (ig : IgnoreDb) (di : Bool) (now : Int) (h ch : Str)
+    (chan : Str → ChanIgn) (e : Str × Int)
+    (hg : ignoredGlobal db ig di now h = .ok none)
+    (hch : isChannel ch = true) (hh : isUserHostmask h = true)
+    (hmem : e ∈ (chan ch).bans ∨ e ∈ (chan ch).ignores)
+    (hlive : banLive now e = true) (hmatch : glob e.1 h = true) :
+    checkIgnoredIn db ig di now h (some ch) chan = .ok true := by
+  unfold checkIgnoredIn
+  rw [hg]
+  simp only [hch, ↓reduceIte]
+  unfold ChanIgn.check
+  by_cases hl : (chan ch).lobotomized = true
+  · simp [hl]
+  · simp only [hl, Bool.false_eq_true, ↓reduceIte, hh, Bool.not_true, Except.ok.injEq, Bool.or_eq_true,
+      List.any_eq_true, Bool.and_eq_true]
+    rcases hmem with hm | hm
+    · left; exact ⟨e, hm, hlive, hmatch⟩
+    · right; exact ⟨e, hm, hlive, hmatch⟩
+
+/-- a trusted user (owners included) is never ignored, not even in a lobotomized channel -/
+theorem trusted_never_ignored (db : Db) (ig : IgnoreDb) (di : Bool) (now : Int) (h : Str) (u : User)
+    (recipient : Option Str) (chan : Str → ChanIgn)
+    (hl : db.lookup now h = .found u) (ht : u.checkCapability trustedS = .ok true) :
+    checkIgnoredIn db ig di now h recipient chan = .ok false := by
+  simp [checkIgnoredIn, ignoredGlobal, hl, ht]
 
 /-! ## configuration writes -/
 
@@ -714,6 +775,85 @@ theorem defaults_drop_owner (v : List Str) (s0 s : CapSet) (h0 : CapSet.ofList v
 
 example : setDefaults false [ownerS] = .ok [antiOwnerS] := by decide
 
+/-- `owner` and `-owner` are never both members -/
+def NoBothOwner (s : CapSet) : Prop := ¬ (ownerS ∈ s ∧ antiOwnerS ∈ s)
+
+theorem mem_insert_iff (s : CapSet) (c x : Str) : x ∈ CapSet.insert s c ↔ x ∈ s ∨ x = c := by
+  unfold CapSet.insert
+  split
+  · constructor
+    · intro h; exact Or.inl h
+    · rintro (h | h)
+      · exact h
+      · subst h; assumption
+  · simp
+
+theorem mem_erase_iff (s : CapSet) (c x : Str) : x ∈ CapSet.erase s c ↔ x ∈ s ∧ x ≠ c := by
+  simp [CapSet.erase]
+
+theorem add_noBoth (s s' : CapSet) (cap : Str) (hs : NoBothOwner s) (h : CapSet.add s cap = .ok s') :
+    NoBothOwner s' := by
+  unfold CapSet.add at h
+  cases hinv : invertCapability (toLower cap) with
+  | error e => simp [hinv] at h
+  | ok inv =>
+    simp only [hinv, Except.ok.injEq] at h
+    subst h
+    intro ⟨ho, ha⟩
+    rw [mem_insert_iff, mem_erase_iff] at ho ha
+    by_cases hc1 : toLower cap = ownerS
+    · have : inv = antiOwnerS := by
+        rw [hc1] at hinv
+        have h2 : invertCapability ownerS = .ok antiOwnerS := by decide
+        rw [h2] at hinv; exact (Except.ok.inj hinv).symm
+      rcases ha with ⟨_, hne⟩ | heq
+      · exact hne this.symm
+      · rw [hc1] at heq; exact absurd heq (by decide)
+    · by_cases hc2 : toLower cap = antiOwnerS
+      · have : inv = ownerS := by
+          rw [hc2] at hinv
+          have h2 : invertCapability antiOwnerS = .ok ownerS := by decide
+          rw [h2] at hinv; exact (Except.ok.inj hinv).symm
+        rcases ho with ⟨_, hne⟩ | heq
+        · exact hne this.symm
+        · rw [hc2] at heq; exact absurd heq (by decide)
+      · rcases ho with ⟨ho', _⟩ | heq
+        · rcases ha with ⟨ha', _⟩ | heq2
+          · exact hs ⟨ho', ha'⟩
+          · exact hc2 heq2.symm
+        · exact hc1 heq.symm
+
+theorem foldlM_add_noBoth (v : List Str) (s s' : CapSet) (hs : NoBothOwner s)
+    (h : v.foldlM CapSet.add s = .ok s') : NoBothOwner s' := by
+  induction v generalizing s with
+  | nil => simp [List.foldlM] at h; cases h; exact hs
+  | cons c cs ih =>
+    simp only [List.foldlM] at h
+    cases hc : CapSet.add s c with
+    | error e => simp [hc, bind, Except.bind] at h
+    | ok s1 =>
+      simp only [hc, bind, Except.bind] at h
+      exact ih s1 (add_noBoth s s1 c hs hc) h
+
+/-- full form of `defaults_have_antiowner`: after any assignment of `supybot.capabilities` the set
+contains `-owner` and does not contain `owner` -/
+theorem defaults_antiowner_not_owner (v : List Str) (s : CapSet) (h : setDefaults false v = .ok s) :
+    antiOwnerS ∈ s ∧ ownerS ∉ s := by
+  refine ⟨defaults_have_antiowner v s h, ?_⟩
+  cases ho : CapSet.ofList v with
+  | error e => simp [setDefaults, ho] at h
+  | ok s0 =>
+    by_cases hm : antiOwnerS ∈ s0
+    · have hs : s = s0 := by
+        simp only [setDefaults, ho, hm, decide_true, Bool.not_true, Bool.false_and, Bool.false_eq_true,
+          ↓reduceIte, Except.ok.injEq] at h
+        exact h.symm
+      subst hs
+      have hnb : NoBothOwner s := foldlM_add_noBoth v [] s (by simp [NoBothOwner]) ho
+      intro hown
+      exact hnb ⟨hown, hm⟩
+    · exact defaults_drop_owner v s0 s ho hm h
+
 /-! ## obligations on what was extracted from /repo (checked again on every run) -/
 
 /-- the shipped default capabilities contain `-owner` and `-admin` (and the scheduler / alias
@@ -756,6 +896,20 @@ theorem defaults_mutators_ok :
                                "plugins/Owner/plugin.py:Owner.defaultcapability:add",
                                "plugins/Owner/plugin.py:Owner.defaultcapability:remove"] := by
   decide
+
+/-- the capability names the gate builds for every command of the inventory (invoked directly or
+plugin-qualified) are well-formed: their anti-capability exists and inverts back to the name, so
+the gate's answer for a bundled command is never an assertion failure on the name -/
+theorem inventory_names_valid :
+    Gen.commands.all (fun r =>
+      match r.path.getLast? with
+      | none => false
+      | some y =>
+        ((checkedNames r.plugin r.path y) ++ (checkedNames r.plugin (canonicalName r.plugin :: r.path) y)).all (fun n =>
+          match makeAntiCapability n with
+          | .ok a => isAntiCapability a && decide (unAntiCapability a = .ok n) && isCapability n
+          | .error _ => false)) = true := by
+  decide +kernel
 
 /-- the call graph around the gate: `callCommand` is only called from `_callCommand` (overrides
 delegate to their parent), `_callCommand` only from `finalEval` (directly or as a thread target)
